@@ -16,7 +16,7 @@ RULE = ("call sets of 1-12 records x sample maps, each run (i) clean, non-strict
         "(strict and projection exclude each other on the command line). Compared with the model of the run: exit "
         "status, stdout (exact integers without projection, within 0.5e-6+1e-9*records with), the 'Skipped X/Y' summary, "
         "the contig:position named in the error, empty stdout on every failure. On the binary alone: total(stdout) + X "
-        "= Y = number of records. non-trivial = a run with a fault or with at least one skipped record; uncompressed BCF streams cut inside a record (1 byte or more into it) must fail with empty stdout")
+        "= Y = number of records. non-trivial = a run with a fault or with at least one skipped record; uncompressed BCF streams cut inside a record (1 byte or more into it) must fail with empty stdout; records whose GT value is no genotype ('0/x', '1/', 'A') in any column are corrupt")
 
 
 def check(rep, tier, seed):
@@ -52,6 +52,9 @@ def check(rep, tier, seed):
                 r2[i][cols.index(selected[0])] = rng.choice(["./.", "1/2"]) if cols.index(selected[0]) != fcol else r2[i][fcol]
             add(r2, False, note="ploidy@%d" % i)
             add(recs, False, raw={i: "chr1\tnot-a-position\t.\tA\tC\t.\t.\t.\tGT" + "\t0/0" * len(cols)}, note="corrupt@%d" % i)
+            # a GT value that is no genotype at all (in any column, selected or not): the record is corrupt, not "missing"
+            badgt = ["0/0"] * len(cols); badgt[rng.randrange(len(cols))] = rng.choice(["0/x", "1/", "A", "0/-1", "0 /1", "/", "0//1", "1|"])
+            add(recs, False, raw={i: "chr1\t%d\t.\tA\tC\t.\t.\t.\tGT\t%s" % (i + 1, "\t".join(badgt))}, note="corrupt-gt@%d" % i)
             r3 = [list(r) for r in recs]
             r3[i][selcol] = "./."
             add(r3, True, note="strict-violation@%d" % i)
@@ -63,7 +66,7 @@ def check(rep, tier, seed):
     # record is corrupt - the run must fail and print no spectrum, not report the records before it
     import struct as _st
     from callsets import bcf_encode_hts
-    tjobs = []
+    tjobs, bcuts = [], []
     for k in range(3 if tier == "quick" else 25):
         cols, recs = random_callset(rng, nsamples=rng.randrange(1, 6), nrecords=rng.randrange(2, 10), p_skip=0.1)
         recs = [[g if g != "." else "./." for g in r] for r in recs]
@@ -76,9 +79,23 @@ def check(rep, tier, seed):
             ls, li = _st.unpack("<II", b[pos:pos + 8])
             bounds.append((pos, 8 + ls + li)); pos += 8 + ls + li
         for ri, (rp, rl) in enumerate(bounds):
+            bcuts.append(b[:rp])           # between two records: a clean end with the records before it
             for inside in sorted(set([1, 2, 3, 4, 7, 8, 9, 20, rl // 2, rl - 7, rl - 1])):
                 if 1 <= inside < rl:
                     tjobs.append((["create"] + (["--strict"] if (ri + inside) % 4 == 0 else []), b[:rp + inside], "record %d of %d cut after %d of %d bytes" % (ri + 1, len(bounds), inside, rl)))
+    # the same streams through the library reader against the model of the record framing (Model/Frames.v, theorems
+    # C10_bcf_stream_cut_*): number of records read, then a clean end or an error
+    from common import run_impl
+    fcases = list(dict.fromkeys((data.hex(), 9 + _st.unpack("<I", data[5:9])[0]) for data in [d_ for _, d_, _ in tjobs] + bcuts))
+    fm = run_model(["frames %d %s" % (off, hx) for hx, off in fcases])
+    fi = run_impl(["genos %s" % hx for hx, off in fcases])
+    for (hx, off), m, i in zip(fcases, fm, fi):
+        it = i.split()
+        got = "%d %s" % (len(it) - 2, it[-1]) if len(it) >= 2 and it[0] == "OK" else i
+        rep.count("run-loop:bcf-framing-vs-model", "stream of %d bytes" % (len(hx) // 2), True)
+        if got != m:
+            rep.fail(kind="model-impl-disagreement", cls="run-loop:truncated-bcf", case="genos %s" % hx[:4000], expected=m, observed=got, stdin_hex=hx,
+                     detail="records read from a cut BCF stream and how the stream ends (D clean end / E error) differ from the model of the record framing", failing_input=True)
     for (argv, data, what), (rc, so, se) in zip(tjobs, run_cli_many([(a, d_) for a, d_, _ in tjobs])):
         rep.count("run-loop:truncated-bcf", what, True)
         if rc == 0 or so != b"":
